@@ -94,6 +94,32 @@ def gen_cases(tier, seed):
         explicit = None
         if mode == 'explicit':
             explicit = r.sample(pool, r.randint(0, 3))
+        if r.random() < 0.08:
+            # closed ring  U_{x0 y0} U_{x1 y0} U_{x1 y1} U_{x2 y1} ... : every
+            # index is contracted and occurs on U only; the value is the trace of
+            # the unit matrix. Deltas of such a ring have no index elsewhere.
+            m = r.randint(1, 2)
+            xs = r.sample(pools[space], 2 * m) if 2 * m <= 5 else pools[space][:4]
+            ring = []
+            for q in range(m):
+                x0, y0 = xs[2 * q], xs[2 * q + 1]
+                x1 = xs[(2 * q + 2) % (2 * m)]
+                ring.append([x0, y0])
+                ring.append([x1, y0])
+            objs = []
+            for up in ring:
+                if r.random() < 0.5:
+                    up = up[::-1] if m == 1 else up
+                o = {'t': kind, 'name': 'U', 'up': list(up)}
+                if kind == 'anti':
+                    o = {'t': 'anti', 'name': 'U', 'up': up[:1], 'lo': up[1:],
+                         'bk': 0}
+                objs.append(o)
+            if r.random() < 0.4:
+                objs.append({'t': 'non', 'name': 'x',
+                             'up': [r.choice(pool)]})
+            terms = [{'pref': r.choice(['1', '-1', '1/2']), 'objs': objs}]
+            mode, explicit = 'explicit', []
         cases.append({'id': f'C20-{tier[0]}{seed}-{k:05d}', 'terms': terms,
                       'explicit': explicit, 'flag': r.random() < 0.5,
                       'dims': list(r.choice([(2, 2), (3, 3), (3, 2), (2, 3)])),
